@@ -388,8 +388,9 @@ class Sched:
     """Deterministic cooperative scheduler over real threads: exactly one thread runs between two
     scheduling points (call start, lock enter, lock exit, every clock read, call end)."""
 
-    def __init__(self, rng, nthreads, choices=None):
+    def __init__(self, rng, nthreads, choices=None, coarse=False):
         self.rng = rng
+        self.coarse = coarse            # scripted mode: branch only on who gets the free lock
         self.choices = choices          # None: random schedule; list: scripted (0 beyond its end)
         self.taken = []                 # (choice made, number of alternatives) per scheduling step
         self.main = real_threading.Semaphore(0)
@@ -423,6 +424,9 @@ class Sched:
             if self.choices is None:
                 env_advance(self.rng)
                 tid = self.rng.choice(runnable)
+            elif self.coarse and any(self.state[i] == "ready" for i in runnable):
+                # code outside the lock touches nothing shared: run it eagerly, lowest thread first
+                tid = next(i for i in runnable if self.state[i] == "ready")
             else:
                 i = len(self.taken)
                 c = self.choices[i] if i < len(self.choices) else 0
@@ -494,7 +498,7 @@ class ThreadingShim:
 dns.resolver.threading = ThreadingShim()
 
 
-def run_concurrent(kind, cfg, t0, ds0, programs, seed, choices=None, sched_out=None):
+def run_concurrent(kind, cfg, t0, ds0, programs, seed, choices=None, sched_out=None, coarse=False):
     """returns (error, acquisition order [(tid, opidx)], reads, results, snapshots, state0, final)
     choices: scripted schedule (exhaustive exploration) instead of the seeded random one"""
     import random
@@ -504,7 +508,7 @@ def run_concurrent(kind, cfg, t0, ds0, programs, seed, choices=None, sched_out=N
     head = [0, cfg, t0, ds0, []] if kind == 0 else [1, cfg, t0, []]
     cache, _ = new_cache(head)
     state0 = state_obs(cache)
-    s = Sched(rng, len(programs), choices)
+    s = Sched(rng, len(programs), choices, coarse)
     s.snapshot = lambda: state_obs(cache)
     fine = choices is None
     results = {}
@@ -575,8 +579,9 @@ def impl_concurrent(case):
         ds0, ops, tail = [], case[3], case[4]
     seed, programs = tail[0], tail[1]
     choices = tail[2] if len(tail) > 2 else None
+    coarse = bool(tail[3]) if len(tail) > 3 else False
     try:
-        err, acq, reads, results, snap, state0, final = run_concurrent(kind, cfg, t0, ds0, programs, seed, choices)
+        err, acq, reads, results, snap, state0, final = run_concurrent(kind, cfg, t0, ds0, programs, seed, choices, coarse=coarse)
     except Exception as e:  # noqa
         return exc_code(e)
     if err:
@@ -834,7 +839,7 @@ def conc_programs(lru, shape):
         yield progs
 
 
-def all_schedules(kind, cfg, programs, limit=5000):
+def all_schedules(kind, cfg, programs, limit=5000, coarse=False):
     """depth-first enumeration of every schedule of the programs (scheduling points: lock enter and
     lock exit; the clock stands still, so reads inside the lock need no scheduling point);
     yields (choices, run result)"""
@@ -843,7 +848,7 @@ def all_schedules(kind, cfg, programs, limit=5000):
     while stack and n < limit:
         prefix = stack.pop()
         taken = []
-        res = run_concurrent(kind, cfg, 100, [], programs, 0, choices=prefix, sched_out=taken)
+        res = run_concurrent(kind, cfg, 100, [], programs, 0, choices=prefix, sched_out=taken, coarse=coarse)
         n += 1
         made = [c for c, _ in taken]
         yield made, res
@@ -852,20 +857,20 @@ def all_schedules(kind, cfg, programs, limit=5000):
                 stack.append(made[:i] + [alt])
 
 
-def conc_case(kind, cfg, programs, choices, res):
+def conc_case(kind, cfg, programs, choices, res, coarse=False):
     err, acq, reads, results, snap, state0, final = res
     ops = witness_of(programs, acq, reads, state0[-1])
-    tail = [0, programs, choices]
+    tail = [0, programs, choices, 1 if coarse else 0]
     return [0, cfg, 100, [], ops, tail] if kind == 0 else [1, cfg, 100, ops, tail]
 
 
-def conc_check(kind, cfg, programs, choices, res):
+def conc_check(kind, cfg, programs, choices, res, coarse=False):
     """one explored schedule against the property: equivalent to its lock-order witness run
     sequentially on a fresh cache, and the witness history satisfies the sequential oracle"""
     err = res[0]
     if err:
         return [{"kind": "concurrent:scheduler", "what": err, "programs": programs, "choices": choices, "cache": kind, "cfg": cfg, "sig": "sched"}]
-    case = lib.normalize(conc_case(kind, cfg, programs, choices, res))
+    case = lib.normalize(conc_case(kind, cfg, programs, choices, res, coarse))
     out = lib.normalize(impl_concurrent(case))
     fs = check_history(case, out)
     if not fs and not isinstance(out, Err):
@@ -881,7 +886,8 @@ def conc_check(kind, cfg, programs, choices, res):
 
 
 def conc_worker(task):
-    lru, cfg, shape, lo, hi, only_disruptive = task
+    lru, cfg, shape, lo, hi, only_disruptive = task[:6]
+    coarse = len(shape) > 2 or sum(shape) > 3
     kind = 1 if lru else 0
     n = 0
     bad = []
@@ -890,9 +896,9 @@ def conc_worker(task):
             continue
         if only_disruptive and not any(op[0] in (3, 4, 5) for op in programs[-1]):
             continue        # the last thread must flush or resize while the others work
-        for choices, res in all_schedules(kind, cfg, programs):
+        for choices, res in all_schedules(kind, cfg, programs, coarse=coarse):
             n += 1
-            fs = conc_check(kind, cfg, programs, choices, res)
+            fs = conc_check(kind, cfg, programs, choices, res, coarse)
             if fs and len(bad) < 2:
                 bad.append(fs[0])
     return n, bad
@@ -1441,7 +1447,8 @@ def extra(ctx):
         cshapes = [(True, 2, (1, 1), False), (False, 2, (1, 1), False), (True, 2, (2, 1), True)]
     else:
         cshapes = [(True, 1, (1, 1), False), (True, 2, (1, 1), False), (False, 0, (1, 1), False), (False, 2, (1, 1), False),
-                   (True, 1, (2, 1), False), (True, 2, (2, 1), False), (False, 2, (2, 1), False), (True, 2, (1, 1, 1), False)]
+                   (True, 2, (2, 1), False), (False, 2, (2, 1), False),
+                   (True, 2, (1, 1, 1), False), (True, 1, (2, 2), False), (True, 2, (2, 1, 1), True)]
     ctasks = []
     for lru, cfg, shape, only in cshapes:
         total = len(CONC_ALPHABET[lru]) ** sum(shape)
@@ -1459,7 +1466,7 @@ def extra(ctx):
                 if len([x for x in F if x.get("case_kind") == "concurrent-exhaustive"]) < 2:
                     F.append(f)
     ctx.notes["exhaustive_concurrent"] = (
-        f"every schedule (scheduling points: lock enter and lock exit; the clock stands still) of every program over "
+        f"every schedule (scheduling points: lock enter and lock exit; for more than 3 calls or 2 threads only the order in which waiting threads get the lock; the clock stands still) of every program over "
         f"get/put/flush(k)/flush()/set_max_size/get_hits_for_key/snapshot with thread shapes "
         + ", ".join(f"{'LRU' if l else 'Cache'}({c}){sh}{' last thread flushes or resizes' if o else ''}" for l, c, sh, o in cshapes)
         + f": {nconc} schedules, each compared with its lock-order witness run sequentially and checked by the sequential oracle")
